@@ -2,13 +2,14 @@
    They are boolean, so that an `Example` can exhibit satisfying values and the checks can
    classify an implementation-produced tree.  Each excluded class has a matching refutation
    theorem (C01/C02) showing that the exclusion is necessary for the code as it is:
-     - NaN doubles (== is false even for itself; compare returns 1 both ways),
-     - the double -0.0 (== to +0.0 but hashed by its bit pattern). *)
-From SE Require Export Expr.Cmp.
+     - NaN doubles (== is false even for itself; compare returns 1 both ways).
+   (-0.0 == +0.0: since the fix of RealDouble::__hash__ both hash alike, and [num_eqb]
+   identifies them, so they need no exclusion; structural uniqueness is not claimed.) *)
+From SE Require Export Expr.Guards.
 Local Open Scope N_scope.
 
 Definition dbl_ok (b : N) : bool :=
-  negb (dbl_is_nan b) && negb (b =? 9223372036854775808) && (b <? W64).
+  negb (dbl_is_nan b) && (b <? W64).
 
 Definition num_wf (n : number) : bool :=
   match n with
@@ -29,22 +30,35 @@ Fixpoint pairwise_ne (l : list expr) : bool :=
   | x :: r => forallb (fun y => negb (expr_eqb x y)) r && pairwise_ne r
   end.
 
-Fixpoint wf (e : expr) : bool :=
+(* the structural side conditions (numbers in canonical form, no NaN double, dictionary keys
+   pairwise not eq) *)
+Fixpoint wf_struct (e : expr) : bool :=
   match e with
   | ENum n => num_wf n
   | ESym _ | EConst _ | EBool _ | EAtom _ => true
   | EDummy _ idx => idx <? W64
   | EAdd c d =>
-      num_wf c && forallb (fun p => wf (fst p) && num_wf (snd p)) d && pairwise_ne (map fst d)
-  | EMul c d => num_wf c && forallb (fun p => wf (fst p) && wf (snd p)) d
-  | EPow b x => wf b && wf x
-  | EF1 _ a => wf a
-  | EF2 _ a b => wf a && wf b
-  | EFN _ l => forallb wf l
-  | EFunSym _ l => forallb wf l
-  | ELex _ a b => wf a && wf b
-  | EDeriv a l => wf a && forallb wf l
-  | ESubs a d => wf a && forallb (fun p => wf (fst p) && wf (snd p)) d
-  | EPw l => forallb (fun p => wf (fst p) && wf (snd p)) l
-  | EInterval s x _ _ => wf s && wf x
+      num_wf c && forallb (fun p => wf_struct (fst p) && num_wf (snd p)) d && pairwise_ne (map fst d)
+  | EMul c d => num_wf c && forallb (fun p => wf_struct (fst p) && wf_struct (snd p)) d
+  | EPow b x => wf_struct b && wf_struct x
+  | EF1 _ a => wf_struct a
+  | EF2 _ a b => wf_struct a && wf_struct b
+  | EFN _ l => forallb wf_struct l
+  | EFunSym _ l => forallb wf_struct l
+  | ELex _ a b => wf_struct a && wf_struct b
+  | EDeriv a l => wf_struct a && forallb wf_struct l
+  | ESubs a d => wf_struct a && forallb (fun p => wf_struct (fst p) && wf_struct (snd p)) d
+  | EPw l => forallb (fun p => wf_struct (fst p) && wf_struct (snd p)) l
+  | EInterval s x _ _ => wf_struct s && wf_struct x
   end.
+
+(* well-formed = the structural conditions, and every node's type code belongs to the class of
+   its constructor (Guards.v: without this conjunct the order theorems of C02 fail on trees such
+   as [EAtom 0], see the [guard_needed_*] examples there) *)
+Definition wf (e : expr) : bool := wf_struct e && codes_ok e.
+
+(* the counterexamples of Guards.v satisfy all structural conditions: only the guard excludes them *)
+Example guard_needed_struct :
+  wf_struct (EAtom 0) = true /\ wf_struct (ENum (NInt 0)) = true /\
+  wf_struct (EPow (EAtom 0) (ENum (NInt 1))) = true /\ wf (EAtom 0) = false.
+Proof. vm_compute. repeat split; reflexivity. Qed.
